@@ -30,25 +30,30 @@ func main() {
 	rounds, _ := strconv.Atoi(os.Args[3])
 	env := c13calls.NewEnv()
 	alpha := c13calls.Alphabet
-	// the concurrent phase runs FIRST so that lazily built state is initialised under contention;
-	// the sequential reference is taken afterwards in the same process and, independently, the
-	// supervisor compares with fresh-process results.
-	results := make([][]string, g)
+	// The concurrent phase runs FIRST so that lazily built state is initialised under contention;
+	// the sequential reference is taken afterwards.
+	type obs struct {
+		first   []string // first result seen per call
+		changed []string
+	}
+	all := make([]obs, g)
 	var wg sync.WaitGroup
 	start := make(chan struct{})
 	for i := 0; i < g; i++ {
+		all[i].first = make([]string, len(alpha))
 		wg.Add(1)
 		go func(i int) {
 			defer wg.Done()
 			<-start
+			o := &all[i]
 			for r := 0; r < rounds; r++ {
 				for k := range alpha {
-					c := alpha[(k+i*7+r)%len(alpha)]
-					res := env.Do(c)
+					idx := (k + i*7 + r) % len(alpha)
+					res := env.Do(alpha[idx])
 					if r == 0 {
-						results[i] = append(results[i], fmt.Sprintf("%d\x00%s", (k+i*7+r)%len(alpha), res))
-					} else if want := results[i][indexOf(results[i], (k+i*7+r)%len(alpha))]; want != fmt.Sprintf("%d\x00%s", (k+i*7+r)%len(alpha), res) {
-						results[i] = append(results[i], "CHANGED\x00"+res+" vs "+want)
+						o.first[idx] = res
+					} else if res != o.first[idx] && len(o.changed) < 5 {
+						o.changed = append(o.changed, fmt.Sprintf("call %d %+v returned %s in round 0 and %s in round %d of the same goroutine", idx, alpha[idx], o.first[idx], res, r))
 					}
 				}
 			}
@@ -57,41 +62,27 @@ func main() {
 	close(start)
 	wg.Wait()
 	o := Out{Goroutines: g, Rounds: rounds, Calls: g * rounds * len(alpha), Mutated: env.Mutated()}
-	ref := make([]string, len(alpha))
 	seq := c13calls.NewEnv()
-	for k, c := range alpha {
-		ref[k] = seq.Do(c)
-	}
 	seen := map[string]bool{}
-	for i := range results {
-		for _, r := range results[i] {
-			var idx int
-			var res string
-			if n, _ := fmt.Sscanf(r, "%d", &idx); n == 1 && len(r) > len(strconv.Itoa(idx)) {
-				res = r[len(strconv.Itoa(idx))+1:]
-				if res != ref[idx] {
-					m := fmt.Sprintf("call %d %+v returned %s concurrently but %s sequentially", idx, alpha[idx], res, ref[idx])
-					if !seen[m] && len(o.Mismatches) < 10 {
-						seen[m] = true
-						o.Mismatches = append(o.Mismatches, m)
-					}
-				}
-			} else if !seen[r] && len(o.Mismatches) < 10 {
-				seen[r] = true
-				o.Mismatches = append(o.Mismatches, "result of a call changed between rounds: "+r)
+	add := func(m string) {
+		if !seen[m] && len(o.Mismatches) < 10 {
+			seen[m] = true
+			o.Mismatches = append(o.Mismatches, m)
+		}
+	}
+	for k, c := range alpha {
+		ref := seq.Do(c)
+		for i := range all {
+			if all[i].first[k] != ref {
+				add(fmt.Sprintf("call %d %+v returned %s concurrently but %s sequentially", k, c, all[i].first[k], ref))
 			}
+		}
+	}
+	for i := range all {
+		for _, m := range all[i].changed {
+			add(m)
 		}
 	}
 	b, _ := json.MarshalIndent(o, "", " ")
 	os.WriteFile(out, b, 0o644)
-}
-
-func indexOf(l []string, idx int) int {
-	p := strconv.Itoa(idx) + "\x00"
-	for i, s := range l {
-		if len(s) >= len(p) && s[:len(p)] == p {
-			return i
-		}
-	}
-	return 0
 }
